@@ -1,5 +1,6 @@
 """C08 — Values and panics cross the coroutine boundary faithfully (structural clauses)."""
 from rules.common import start
+from rules import wave3
 from rules import wave2
 from rules import coro
 
@@ -26,4 +27,6 @@ def run(tier):
     # made and the next resume argument goes to the signal handler's suspend (rule shared with C22)
     from rules import preempt
     preempt.registration_rule(run, fx["core/preemptive"], "C08-MONITOR-ONLY-UNIT")
+    # clauses added for the wave-2 seeds (rules/wave2.py; DESIGN 12a)
+    wave3.no_exit_before_yield_rule(run, f, "C08-NO-EXIT-BEFORE-YIELD")
     return run.finish()
